@@ -419,6 +419,7 @@ func runHostile(t fatalTB, connack []byte, stream []byte, hs hostileSetup) (labe
 	// the application keeps reading until the stream is consumed or rejected
 	var firstErr error
 	returns := 0
+	followed := false
 	scan := func() bool {
 		// (a return may precede the harness's next step: look at all of them)
 		for i := resultsBefore; i < w.App.NResults(); i++ {
@@ -488,6 +489,24 @@ func runHostile(t fatalTB, connack []byte, stream []byte, hs hostileSetup) (labe
 		}
 		if !redialed {
 			fail("after the protocol violation the next ReadSlices did not dial again")
+		}
+		// … and the fresh connection starts from a clean slate: what the
+		// broker sends there is received as sent (nothing of the discarded
+		// stream, no skip count, no partial packet is carried over)
+		if nc := w.Current(); nc != nil && nc != c && nc.Accepted() && w.App.InCall() && w.ReaderWaiting() {
+			before := w.App.NResults()
+			follow := &refmqtt.Packet{Type: refmqtt.PUBLISH, Topic: "after/the/reset", Payload: []byte("clean slate")}
+			nc.Send(refmqtt.Encode(follow))
+			w.MustPoll("ReadSlices returning the message sent on the fresh connection", func() bool {
+				return w.App.NResults() > before || !w.App.InCall()
+			})
+			if w.App.NResults() <= before {
+				fail("after the reset a PUBLISH sent on the fresh connection was not returned by ReadSlices")
+			}
+			if r := w.App.Result(before); r.Err != nil || string(r.Topic) != follow.Topic || string(r.Msg) != string(follow.Payload) {
+				fail("after the reset the first PUBLISH on the fresh connection (topic %q, payload %q) came out as %s", follow.Topic, follow.Payload, r)
+			}
+			followed = true
 		}
 		// the reset releases whoever waited on that connection
 		if subCall != nil {
@@ -572,6 +591,9 @@ func runHostile(t fatalTB, connack []byte, stream []byte, hs hostileSetup) (labe
 	label = "stream-" + names[lastV]
 	nontrivial = lastV != vAccept || hs.N1+hs.N2pub+hs.N2rel > 0
 	_ = rejected
+	if followed {
+		stats.For("C13").Label("reject-then-message-on-the-fresh-connection", 1)
+	}
 	return label, nontrivial
 }
 
